@@ -44,8 +44,18 @@ EXPLANATION = (
     "duplicate-keyword-argument, which read attributes the error class "
     "really sets and always emit.  R13.3: function.Args is a frozen attrs "
     "class.  R13.4: the binders never store into or call a mutator on the "
-    "call record.  The mapping of individual parameters to arguments is not "
-    "decided.")
+    "call record.  R13.5: in both binders the quantity the number of "
+    "positional arguments is compared with before WrongArgCount is raised is "
+    "the number of positional parameters only - len(signature.param_names), "
+    "also through locals, count-preserving maps and the binder class's own "
+    "one-line method (SignedFunction.argcount, whose overrides in subclasses "
+    "must agree; InterpreterFunction.argcount reads code.argcount, which "
+    "blocks.OrderedCode copies from CPython's co_argcount); a capacity that "
+    "also counts keyword-only parameters (len(pytd_sig.params), "
+    "len(param_names + kwonly_params), a list built per pytd parameter) or "
+    "only the positional-only ones is a violation, any other expression an "
+    "analysis error.  The mapping of individual parameters to arguments is "
+    "not decided.")
 ASSUMPTIONS = [
     "`x is None` and `not x` are treated as the same 'absent' test for the "
     "call record's starargs/starstarargs and the signature's "
@@ -62,6 +72,10 @@ ASSUMPTIONS = [
     "binder error orders the errors and is not counted as a guard",
     "only raises written directly in the three binder functions are compared; "
     "helpers they call are not followed",
+    "Signature.param_names holds exactly the positional parameters "
+    "(positional-only first), kwonly_params the keyword-only ones, and "
+    "pytd_sig.params both kinds (Signature.from_pytd); CPython's co_argcount "
+    "excludes keyword-only parameters",
 ]
 
 FB = "pytype/abstract/_function_base.py"
